@@ -1,0 +1,76 @@
+//go:build verif
+// +build verif
+
+package fsutil
+
+import (
+	"bytes"
+	"context"
+	"os"
+
+	"github.com/moby/patternmatcher"
+	"github.com/tonistiigi/fsutil/types"
+)
+
+// Verification hooks: thin exported wrappers around unexported functions so that an
+// external harness can run them on in-memory inputs. Compiled only with -tags verif.
+
+func verifListingWalker(l []*types.Stat) walkerFn {
+	return func(ctx context.Context, pathC chan<- *currentPath) error {
+		for _, st := range l {
+			select {
+			case <-ctx.Done():
+				return ctx.Err()
+			case pathC <- &currentPath{path: st.Path, stat: st}:
+			}
+		}
+		return nil
+	}
+}
+
+// VerifDoubleWalkDiff runs doubleWalkDiff on two in-memory listings (a = lower/old, b = upper/new).
+func VerifDoubleWalkDiff(ctx context.Context, a, b []*types.Stat, filter FilterFunc, differ DiffType, changeFn ChangeFunc) error {
+	return doubleWalkDiff(ctx, changeFn, verifListingWalker(a), verifListingWalker(b), filter, differ)
+}
+
+// VerifSameFile exposes sameFile for two stats (DiffContent is not supported here).
+func VerifSameFile(a, b *types.Stat, differ DiffType) (bool, error) {
+	return sameFile(&currentPath{path: a.Path, stat: a}, &currentPath{path: b.Path, stat: b}, differ)
+}
+
+// VerifBuffer allocates len(sizes) records in a fresh buffer, lets fill write each one,
+// and returns what WriteTo emits plus the (len, cap) of every chunk.
+func VerifBuffer(sizes []int, fill func(i int, b []byte)) ([]byte, [][2]int, error) {
+	b := &buffer{}
+	for i, n := range sizes {
+		fill(i, b.alloc(n))
+	}
+	var out bytes.Buffer
+	_, err := b.WriteTo(&out)
+	var chunks [][2]int
+	for _, c := range b.chunks {
+		chunks = append(chunks, [2]int{len(c), cap(c)})
+	}
+	return out.Bytes(), chunks, err
+}
+
+func VerifDedupePaths(in []string) []string { return dedupePaths(in) }
+
+func VerifFileCanRequestData(m os.FileMode) bool { return fileCanRequestData(m) }
+
+func VerifContainsWildcards(name string) bool { return containsWildcards(name) }
+
+// VerifPatternWithoutTrailingGlob applies patternWithoutTrailingGlob to the (single) compiled pattern.
+func VerifPatternWithoutTrailingGlob(p string) (string, error) {
+	pm, err := patternmatcher.New([]string{p})
+	if err != nil {
+		return "", err
+	}
+	return patternWithoutTrailingGlob(pm.Patterns()[0]), nil
+}
+
+const (
+	VerifMetadataPath   = metadataPath
+	VerifChunkSize      = chunkSize
+	VerifWalkerChanSize = 128
+)
